@@ -7,6 +7,7 @@ import RefurbVerif.Model.Catalogue
 import RefurbVerif.Generated.Catalogue
 import RefurbVerif.Wire.Basic
 import RefurbVerif.Wire.Settings
+import RefurbVerif.Wire.Report
 
 open Lean RefurbVerif
 
@@ -24,7 +25,7 @@ def handle (j : Json) : Json :=
   match getStr j "verb" with
   | "explain" => handleExplain j
   | v =>
-    match Wire.handleSettings v j with
+    match [Wire.handleSettings, Wire.handleReport].findSome? (fun h => h v j) with
     | some r => r
     | none => Json.mkObj [("error", s!"unknown verb {v}")]
 
